@@ -672,6 +672,34 @@ fn oracle_line(line: &str) -> Result<bool, String> {
     Ok(opt.is_some())
 }
 
+/// deep search, run only when an obligation or the correspondence is broken and the ordinary
+/// workload shows no failing input: many three-output lists of three variables with high gate
+/// costs (totals of 20 to 60, where a solver that stops within a few percent of the optimum, or a
+/// slightly wrong objective, shows), optimum by enumeration of the irredundant covers
+fn gen_deep(seed: u64) -> Vec<String> {
+    let mut r = Rng::new(seed, "C18-deep");
+    let mut out = Vec::new();
+    let costs: [(i64, i64, i64); 6] = [(3, 1, 3), (3, 2, 3), (3, 3, 3), (2, 1, 3), (3, 1, 2), (3, 2, 1)];
+    for i in 0..10000 {
+        let tabs: Vec<String> = (0..3)
+            .map(|_| {
+                // on-set densities of about 0.4, 0.55 and 0.7
+                let v = match i % 3 {
+                    0 => r.next() & (r.next() | r.next() >> 1),
+                    1 => r.next() & (r.next() | r.next() | r.next()),
+                    _ => r.next() | (r.next() & r.next()),
+                } & 0xff;
+                Tab::new(3, vec![v]).show()
+            })
+            .collect();
+        let (a, x, o) = costs[i % 6];
+        // measured on a seeded 5% optimality gap: only the richer `sopes` programmes stop early
+        let kind = if i % 10 == 9 { "sop" } else { "sopes" };
+        out.push(format!("mip {} {} {} {} {}", kind, a, x, o, tabs.join(" ")));
+    }
+    out
+}
+
 fn gen(thorough: bool, seed: u64) -> Vec<String> {
     let mut r = Rng::new(seed, "C18");
     let mut out = Vec::new();
@@ -827,7 +855,8 @@ pub fn run<W: Write>(args: &[String], w: &mut W) {
         Some("gen") => {
             let thorough = args.get(1).map(|s| s == "thorough").unwrap_or(false);
             let seed: u64 = args.get(2).and_then(|s| s.parse().ok()).unwrap_or(1);
-            for l in gen(thorough, seed) {
+            let lines = if args.get(1).map(|s| s == "deep").unwrap_or(false) { gen_deep(seed) } else { gen(thorough, seed) };
+            for l in lines {
                 writeln!(w, "{}", l).unwrap();
             }
         }
